@@ -635,8 +635,18 @@ func (mgr *Manager) invalidateTags(updatedStreams, resetStreams, addedStreams bi
 			if addedStreams.IsZero() {
 				continue
 			}
-			tin.Uncertain = ti.Uncertain.Copy()
-			tin.Uncertain.Or(addedStreams)
+			if ids, ok := ti.Conditions.StreamIDs(mgr.nextStreamID); ok {
+				// a plain list of ids (all mark tags, they can be huge): decide the new streams right away
+				ids.And(addedStreams)
+				tin.Matches = ti.Matches.Copy()
+				tin.Matches.Or(ids)
+				for _, converter := range ti.converters {
+					mgr.streamsToConvert[converter.Name()].Or(ids)
+				}
+			} else {
+				tin.Uncertain = ti.Uncertain.Copy()
+				tin.Uncertain.Or(addedStreams)
+			}
 		} else {
 			tin.Uncertain = ti.Uncertain.Copy()
 			tin.Uncertain.Or(addedStreams)
